@@ -285,8 +285,13 @@ def kept_tail_ok(dv, r, marker, marker_expr):
         return False
     hi_t = unparse(hi)
     if marker is not None:
-        m = re.fullmatch(rf"min\(len\({dv.buf}\), (\d+)\)", hi_t) or re.fullmatch(rf"min\((\d+), len\({dv.buf}\)\)", hi_t)
-        bound_ok = bool(m) and int(m.group(1)) >= len(marker) - 1
+        # min(len(buf), N) in either order, N any constant expression (5, len(b"8=FIX.") - 1, ...) not below len(marker) - 1
+        bound_ok = False
+        if isinstance(hi, ast.Call) and unparse(hi.func) == "min" and len(hi.args) == 2 and not hi.keywords:
+            for a, b in ((hi.args[0], hi.args[1]), (hi.args[1], hi.args[0])):
+                n_ = _const_int(b)
+                if unparse(a) == f"len({dv.buf})" and n_ is not None and n_ >= len(marker) - 1:
+                    bound_ok = True
         lits = [repr(marker)]
     else:
         # a run-time marker: the bound has to follow its length, a constant cannot be right for every marker
@@ -302,6 +307,24 @@ def kept_tail_ok(dv, r, marker, marker_expr):
     has_break = any(isinstance(x, ast.Break) for s in lp.body for x in ast.walk(s))
     inits = [v for v in derivation(fn, keep, 0).get(keep, []) if isinstance(v, ast.Constant)]
     return cond_ok and has_break and any(v.value == 0 for v in inits)
+
+
+def _const_int(e):
+    """Value of a constant integer expression: literals, len(<str/bytes literal>), + and -."""
+    if isinstance(e, ast.Constant) and isinstance(e.value, int) and not isinstance(e.value, bool):
+        return e.value
+    if isinstance(e, ast.Call) and isinstance(e.func, ast.Name) and e.func.id == "len" and len(e.args) == 1 and isinstance(e.args[0], ast.Constant) \
+            and isinstance(e.args[0].value, (str, bytes)):
+        return len(e.args[0].value)
+    if isinstance(e, ast.BinOp) and isinstance(e.op, (ast.Add, ast.Sub)):
+        a, b = _const_int(e.left), _const_int(e.right)
+        if a is None or b is None:
+            return None
+        return a + b if isinstance(e.op, ast.Add) else a - b
+    if isinstance(e, ast.UnaryOp) and isinstance(e.op, ast.USub):
+        a = _const_int(e.operand)
+        return None if a is None else -a
+    return None
 
 
 # ------------------------------------------------------------------------------ rule 3
